@@ -160,6 +160,7 @@ def build_call(op, rng, H, W):
         a = _raster(rng, H, W)[2]
         fin = a[np.isfinite(a.astype('float64'))]
         vals = [fin[int(rng.integers(0, len(fin)))].item() for _ in range(int(rng.integers(1, 4)))] if len(fin) else [1.0]
+        vals = vals + [float(v) for v in rng.choice([1.5, 0.1, 2.0, 7.25, 0.7], size=int(rng.integers(0, 3)))]      # lookup values the raster dtype cannot hold
         spec['f'] = classify.binary; spec['arrays'] = [a]; spec['kwargs'] = dict(values=vals)
     elif op == 'reclassify':
         a = _raster(rng, H, W)[2]
